@@ -37,13 +37,15 @@ template <class It, class Cmp> void sort(It b, It e, Cmp c) {
   for (long i = n - 1; i > 0; --i) std::iter_swap(b + i, b + next(rng) % (i + 1));  // the input order carries no promise
   rec(b, e, counting, rng);
   // strict weak order on what was shown: irreflexive, and the result is consistent (no later element before an earlier one);
-  // transitivity of equivalence on all triples of small inputs
+  // transitivity (of the order and of equivalence) on all triples of small inputs, on seeded sampled triples otherwise
   if (n <= 256) for (long i = 0; i < n; ++i) { if (c(b[i], b[i])) ++st.swo_violations; for (long j = i + 1; j < n; ++j) if (c(b[j], b[i])) ++st.swo_violations; }
-  if (n <= 48) for (long i = 0; i < n; ++i) for (long j = 0; j < n; ++j) for (long k = 0; k < n; ++k) {
+  auto triple = [&](long i, long j, long k) {
     if (c(b[i], b[j]) && c(b[j], b[k]) && !c(b[i], b[k])) ++st.swo_violations;
     bool eij = !c(b[i], b[j]) && !c(b[j], b[i]), ejk = !c(b[j], b[k]) && !c(b[k], b[j]), eik = !c(b[i], b[k]) && !c(b[k], b[i]);
     if (eij && ejk && !eik) ++st.swo_violations;
-  }
+  };
+  if (n <= 10) { for (long i = 0; i < n; ++i) for (long j = 0; j < n; ++j) for (long k = 0; k < n; ++k) triple(i, j, k); }
+  else for (int t = 0; t < 400; ++t) triple((long)(next(rng) % n), (long)(next(rng) % n), (long)(next(rng) % n));  // sampled triples
 }
 }  // namespace sim_sort
 
